@@ -468,7 +468,11 @@ func (t *fnTrans) fillCall(c *ast.CallExpr, fn string, rd, buf ast.Expr) (string
 	r := t.fresh("r")
 	var b strings.Builder
 	fmt.Fprintf(&b, "let %s := %s %s %s\n", r, fn, t.expr(buf), t.varRead(ro))
-	b.WriteString(t.assign(c, buf, r+".1"))
+	if bc, isCall := buf.(*ast.CallExpr); isCall && qualName(bc, t.pi.info) == "builtin.make" {
+		// `r.Read(make([]byte, n))`: the bytes are read and thrown away
+	} else {
+		b.WriteString(t.assign(c, buf, r+".1"))
+	}
 	b.WriteString(t.assignObj(c, ro, r+".2.1"))
 	return b.String(), []string{r + ".2.2.1", r + ".2.2.2"}, true
 }
